@@ -21,6 +21,9 @@ mod cell;
 mod pointers;
 mod trace;
 
+#[cfg(boa_verif)]
+pub mod verif;
+
 pub(crate) mod internals;
 
 use internals::{EphemeronBox, ErasedEphemeronBox, ErasedWeakMapBox, WeakMapBox};
@@ -137,6 +140,8 @@ impl Allocator {
             // Safety: value cannot be a null pointer, since `Box` cannot return null pointers.
             let ptr = unsafe { NonNull::new_unchecked(Box::into_raw(Box::new(value))) };
             let erased: NonNull<GcBox<NonTraceable>> = ptr.cast();
+            #[cfg(boa_verif)]
+            verif::on_box_alloc(erased.as_ptr().cast::<()>() as usize);
 
             gc.strongs.push(erased);
             gc.runtime.bytes_allocated += element_size;
@@ -186,6 +191,10 @@ impl Allocator {
     }
 
     fn manage_state(gc: &mut BoaGc) {
+        #[cfg(boa_verif)]
+        if verif::on_alloc_tick() {
+            Collector::collect(gc);
+        }
         if gc.runtime.bytes_allocated > gc.config.threshold {
             Collector::collect(gc);
 
@@ -464,6 +473,8 @@ impl Collector {
                 let drop_fn = node_ref.drop_fn();
                 let size = node_ref.size();
                 *total_allocated -= size;
+                #[cfg(boa_verif)]
+                verif::on_box_free(node.as_ptr().cast::<()>() as usize, false);
 
                 // SAFETY: The function pointer is appropriate for this node type because we extract it from it's VTable.
                 unsafe {
@@ -489,6 +500,8 @@ impl Collector {
                 let unmarked_eph = unsafe { Box::from_raw(eph.as_ptr()) };
                 let unallocated_bytes = size_of_val(&*unmarked_eph);
                 *total_allocated -= unallocated_bytes;
+                #[cfg(boa_verif)]
+                verif::on_box_free(eph.as_ptr().cast::<()>() as usize, true);
 
                 false
             }
@@ -514,6 +527,8 @@ impl Collector {
             // The `Allocator` must always ensure its start node is a valid, non-null pointer that
             // was allocated by `Box::from_raw(Box::new(..))`.
             let drop_fn = unsafe { node.as_ref() }.drop_fn();
+            #[cfg(boa_verif)]
+            verif::on_box_free(node.as_ptr().cast::<()>() as usize, false);
 
             // SAFETY: The function pointer is appropriate for this node type because we extract it from it's VTable.
             unsafe {
